@@ -91,3 +91,7 @@
 (define-fun hasDotDotSeg ((s String)) Bool (or (= s "..") (str.prefixof "../" s) (str.suffixof "/.." s) (str.contains s "/../")))
 ; e is one of the segments strings.Split(s, "/") delivers
 (define-fun segOf ((e String) (s String)) Bool (and (not (str.contains e "/")) (str.contains s e) (=> (= e "..") (hasDotDotSeg s))))
+; relative link target whose ".." segments are all leading (then "lexically inside" implies "physically inside", lemma FS-2)
+(define-fun reNoDotDot () RegLan (re.comp (re.++ (re.opt (re.++ re.all (str.to_re "/"))) (str.to_re "..") (re.opt (re.++ (str.to_re "/") re.all)))))
+(define-fun dotdotOnlyLeading ((t String)) Bool (str.in_re t (re.++ (re.* (str.to_re "../")) (re.union reNoDotDot (str.to_re "..")))))
+(define-fun charStr ((c Int)) String (str.from_code c))
